@@ -18,7 +18,7 @@ func init() {
 			"Scheduler.lastError and the other lock-protected run state are written with their mutex held everywhere (C08.state-lock, shared)",
 			"Scheduler.Status returns each outcome constant exactly under the oracle's conditions (canceled∧¬allSucceeded / ¬started / running / lastError!=nil / else success) (C04.status-table)",
 			"isSucceed returns true only after all nodes were seen and skips only finished/skipped nodes (C04.succeed-table)",
-			"every store of failed into a step's status is paired with a write of lastError in the same cell (C04.error-pairing)",
+			"every store of failed into a step's status - by the worker or by the scheduling thread itself - is paired with a write of lastError before the worker moves on / the loop launches, iterates or returns (C04.error-pairing)",
 			"onSuccess/onFailure/onCancel are appended only under the matching Status value, onExit unconditionally and last; handlers are run by one loop over that slice, one runHandlerNode call per element (C04.handler-table)",
 			"the Status call that selects handlers is dominated by wg.Wait(), which is outside the scheduling loop (C04.after-wait)",
 			"a handler failure cannot change the run's outcome: no possibly non-nil value is written to lastError after the handlers were selected (C04.handler-no-lasterror)",
@@ -98,7 +98,7 @@ func (s *Sched) predKind(f *ssa.Function) string {
 	w, _ := s.followForwarders(f)
 	if len(ir.Loops(w)) > 0 || s.quantifierCall(w) != nil {
 		succ := s.val("NodeStatusSuccess")
-		for _, g := range ir.WithClosures(w) {
+		for _, g := range e.withPkgHelpers(w) {
 			for _, b := range g.Blocks {
 				for _, in := range b.Instrs {
 					if bo, ok := in.(*ssa.BinOp); ok {
@@ -313,10 +313,7 @@ func c04SucceedTable(e *Env, s *Sched) {
 		r.Unknown("Status(): the all-nodes-succeeded predicate", "-", "Status() consults no function that walks the nodes comparing their status with finished")
 		return
 	}
-	isElemStatus := func(v ssa.Value) bool {
-		p, ok := e.C.PathOf(v)
-		return ok && p.Suffix("State.Status")
-	}
+	isElemStatus := func(v ssa.Value) bool { return e.isStatusValue(v) }
 	// the predicate may hand on the answer of a graph method, and the walk may be
 	// written with slices.ContainsFunc and a predicate closure
 	walkFn, neg := s.followForwarders(fn)
@@ -334,22 +331,23 @@ func c04SucceedTable(e *Env, s *Sched) {
 		answerNeg := neg
 		okShape := false
 		for _, b := range walkFn.Blocks {
-			if rt, isR := b.Instrs[len(b.Instrs)-1].(*ssa.Return); isR && len(rt.Results) == 1 {
+			if rt, isR := b.Instrs[len(b.Instrs)-1].(*ssa.Return); isR && len(rt.Results) == 1 && e.Facts(walkFn).Reachable(b) {
 				v := ir.Resolve(rt.Results[0])
+				n := neg
 				for {
 					if u, isU := v.(*ssa.UnOp); isU && u.Op == token.NOT {
-						v, answerNeg = ir.Resolve(u.X), !answerNeg
+						v, n = ir.Resolve(u.X), !n
 						continue
 					}
 					break
 				}
 				if v == ssa.Value(qc) {
-					okShape = true
+					okShape, answerNeg = true, n
 				}
 			}
 		}
 		if pred == nil || !isContains || !okShape || !answerNeg {
-			r.Unknown("isSucceed: the walk over the nodes", e.InstrPos(qc), "answers from a slices search in a form that is not `!ContainsFunc(nodes, notFinished)`")
+			r.Unknown("isSucceed: the walk over the nodes", e.InstrPos(qc), sprintf("answers from a slices search in a form that is not `!ContainsFunc(nodes, notFinished)` (predicate found=%v, ContainsFunc=%v, result is the search=%v, negated=%v)", pred != nil, isContains, okShape, answerNeg))
 			return
 		}
 		allNodes := false
@@ -369,7 +367,7 @@ func c04SucceedTable(e *Env, s *Sched) {
 		}
 		set := ir.EnumSet{}
 		for _, a := range alts {
-			for v := range ir.Restrict(a, isElemStatus, s.NS) {
+			for v := range e.restrictWays(a, isElemStatus, s.NS) {
 				set[v] = true
 			}
 		}
@@ -467,46 +465,75 @@ func c04SucceedTable(e *Env, s *Sched) {
 func c04ErrorPairing(e *Env, s *Sched) {
 	r := e.R
 	r.Rule("C04.error-pairing", "MPT", "status:=Error paired with a lastError write", 3)
-	w := s.Worker
-	var lastErrStores []ssa.Instruction
-	for _, ev := range e.C.FieldStores(w, e.schedFields().LastError) {
-		if ev.Val != nil && ir.IsNilConst(ev.Val) {
-			continue
+	// the worker, and the scheduling thread itself (a step can also be failed before
+	// it is launched: a precondition that cannot be evaluated, a refused slot)
+	fns := []*ssa.Function{s.Worker}
+	for _, lf := range sortedFns(s.LoopFns) {
+		if lf != s.Worker {
+			fns = append(fns, lf)
 		}
-		lastErrStores = append(lastErrStores, ev.Site)
 	}
-	for _, ev := range s.statusEvents(w) {
-		k, ok := s.constOf(ev)
-		if !ok || k != s.val("NodeStatusError") || !sameNode(ev.Root, s.WorkerNode) {
-			continue
+	for _, w := range fns {
+		who := "worker"
+		if w != s.Worker {
+			who = "loop " + shortName(w)
 		}
-		paired := false
-		for _, ls := range lastErrStores {
-			if ls.Block() == ev.Site.Block() {
-				paired = true
+		var lastErrStores []ssa.Instruction
+		for _, ev := range e.C.FieldStores(w, e.schedFields().LastError) {
+			if ev.Val != nil && ir.IsNilConst(ev.Val) {
+				continue
 			}
-			if ir.Precedes(ls, ev.Site) && sameGuards(e, ls, ev.Site) {
-				paired = true
-			}
+			lastErrStores = append(lastErrStores, ev.Site)
 		}
-		if !paired {
-			bad, _ := ir.Bypass(ev.Site, nil, ir.PathQuery{
-				Stop: func(in ssa.Instruction) bool {
-					for _, ls := range lastErrStores {
-						if ls == in {
-							return true
+		for _, ev := range s.statusEvents(w) {
+			k, ok := s.constOf(ev)
+			if !ok || k != s.val("NodeStatusError") {
+				continue
+			}
+			if w == s.Worker {
+				if !sameNode(ev.Root, s.WorkerNode) {
+					continue
+				}
+			} else if s.isHandlerNode(ir.Deep(ev.Root)) || s.isHandlerNode(ev.Root) || !strings.HasSuffix(ir.NamedType(ev.Root.Type()), ".Node") {
+				continue // a failing handler does not change the run's outcome (C04.handler-no-lasterror)
+			}
+			paired := false
+			for _, ls := range lastErrStores {
+				if ls.Block() == ev.Site.Block() {
+					paired = true
+				}
+				if ir.Precedes(ls, ev.Site) && sameGuards(e, ls, ev.Site) {
+					paired = true
+				}
+			}
+			if !paired {
+				bad, _ := ir.Bypass(ev.Site, nil, ir.PathQuery{
+					Stop: func(in ssa.Instruction) bool {
+						for _, ls := range lastErrStores {
+							if ls == in {
+								return true
+							}
 						}
-					}
-					return false
-				},
-				Bad: func(in ssa.Instruction) bool {
-					_, isSend := in.(*ssa.Send)
-					return ir.IsReturn(in) || isSend
-				}})
-			paired = bad == nil
+						return false
+					},
+					Bad: func(in ssa.Instruction) bool {
+						_, isSend := in.(*ssa.Send)
+						if w != s.Worker {
+							// the scheduling thread: the next iteration, a launch, the end of the loop
+							if _, isGo := in.(*ssa.Go); isGo {
+								return true
+							}
+							if j, isJ := in.(*ssa.Jump); isJ && j.Block().Succs[0].Dominates(j.Block()) {
+								return true
+							}
+						}
+						return ir.IsReturn(in) || isSend
+					}})
+				paired = bad == nil
+			}
+			r.Check(paired, who+": status:=Error paired with lastError ["+shortSite(e, ev)+"]", e.InstrPos(ev.Site),
+				"a step is labelled failed on a path that does not record the error in lastError: the run would be reported finished although a step failed")
 		}
-		r.Check(paired, "worker: status:=Error paired with lastError ["+shortSite(e, ev)+"]", e.InstrPos(ev.Site),
-			"a step is labelled failed on a path that does not record the error in lastError: the run would be reported finished although a step failed")
 	}
 }
 
